@@ -44,6 +44,12 @@ def main():
         r1d, z1d, psi2d, psi1d = E.tokamak_arrays(geom, 65, 65)
         inputs[iname] = {"r1d": r1d, "z1d": z1d, "psi2d": psi2d, "psi1d": psi1d, "fpol1d": 1.0 - 0.1 * psi1d ** 2, "pres": 1000.0 * (0.2 + psi1d ** 2)}
     pristine_all = {i: {k: v.copy() for k, v in a.items()} for i, a in inputs.items()}
+    # the caller also owns the wall list and the settings dictionaries: they are passed as they are (not copies), kept between builds, and
+    # must come back unchanged like the arrays
+    import copy as _copy
+    wall_obj = E.default_wall()
+    wall_pristine = _copy.deepcopy(wall_obj)
+    optobjs = {}
     events = []
     eq = None
     opts = None
@@ -66,17 +72,23 @@ def main():
             pristine = pristine_all[iname]
             opts = dict(job["base"])
             opts.update(job["optsets"][name])
+            if name not in optobjs:
+                optobjs[name] = (dict(opts), dict(opts))
             before = {k: v.copy() for k, v in arrays.items()}
             try:
                 with E.quiet():
                     eq = tokamak.TokamakEquilibrium(arrays["r1d"], arrays["z1d"], arrays["psi2d"], arrays["psi1d"], arrays["fpol1d"], pressure=arrays["pres"],
-                                                    wall=E.default_wall(), settings=dict(opts), nonorthogonal_settings=dict(opts))
+                                                    wall=wall_obj, settings=optobjs[name][0], nonorthogonal_settings=optobjs[name][1])
                 out = "ok"
             except BaseException as e:  # noqa
                 out = "refused"
                 eq = None
                 status.setdefault("exc", []).append("%s: %s" % (type(e).__name__, str(e)[:150]))
             changed = [k for k in arrays if not np.array_equal(arrays[k], before[k])]
+            if wall_obj != wall_pristine:
+                changed.append("wall")
+            if optobjs[name][0] != opts or optobjs[name][1] != opts:
+                changed.append("settings")
             events.append({"ev": "BuildEq", "arg": name, "input": iname, "out": out, "changed": 1 if changed else 0, "which": ",".join(changed),
                            "pristine": 1 if all(np.array_equal(arrays[k], pristine[k]) for k in arrays) else 0, "digest": 0})
         if eq is not None:
